@@ -5,7 +5,7 @@
    destination hi; lo], timestamp, source data, CRC-16/CCITT-FALSE. *)
 From Coq Require Import ZArith List Lia.
 From SP Require Import Base.Result Base.Bytes Base.Crc16 Model.SpacePacket Spec.SpacePacketSpec
-  Model.PusTc Model.PusTm Spec.PusSpec Proofs.PusTmProofs Model.PusTmHist Proofs.PusHeaderRefusal.
+  Model.PusTc Model.PusTm Spec.PusSpec Proofs.PusTmProofs Model.PusTmHist Proofs.PusHeaderRefusal Proofs.PusAltCtor.
 Import ListNotations.
 Open Scope Z_scope.
 
@@ -107,3 +107,21 @@ Proof.
   split; [|split; [vm_compute; reflexivity|reflexivity]].
   intros h E. vm_compute in E. injection E as <-. vm_compute. reflexivity.
 Qed.
+
+(* ---- alternative construction path PusTm.from_composite_fields ---- *)
+Theorem C03_from_composite_is_new : forall service subservice stamp src apid seq msgcnt ref dest version t,
+  tm_new service subservice stamp src apid seq msgcnt ref dest version = Ok t ->
+  tm_from_composite_fields (tm_sph t) (tm_sec t) (tm_src t) = Ok t.
+Proof. exact tm_from_composite_is_new. Qed.
+Print Assumptions C03_from_composite_is_new.
+
+Theorem C03_from_composite_refuses_tc : forall h s d,
+  ptype h = PT_TC -> tm_from_composite_fields h s d = Err EValue /\ documented EValue = true.
+Proof. intros h s d H. split; [exact (tm_from_composite_refuses_tc h s d H)|reflexivity]. Qed.
+Print Assumptions C03_from_composite_refuses_tc.
+
+Theorem C03_from_composite_adopts : forall h s d,
+  ptype h <> PT_TC ->
+  tm_from_composite_fields h s d = Ok {| tm_sph := h; tm_sec := s; tm_src := d; tm_crc := None |}.
+Proof. exact tm_from_composite_adopts. Qed.
+Print Assumptions C03_from_composite_adopts.
